@@ -351,6 +351,28 @@ example : ∃ (s : St) (a : Entry), TreeInv s ∧ (["a"], a) ∈ s.ents ∧ a.is
   ⟨run {} [.create ["a"] { isDir := false, tag := 1, chunks := [1], hl := 0, cnt := 0 } false],
    { isDir := false, tag := 1, chunks := [1], hl := 0, cnt := 0 }, tree_inv _ (by simp [OpOk]), by decide, rfl, rfl, by decide⟩
 
+/-! ### frame: what the operations cannot touch (for ALL states, flags and outcomes) -/
+
+/-- CreateEntry (with its implicit parent creation) changes nothing except the path itself and its ancestors -/
+theorem create_touches_only_path_and_ancestors (s : St) (p : RPath) (e : Entry) (b : Bool) (x : RPath × Entry)
+    (hx : ¬ x.1 <:+ p) : x ∈ (createEntry s p e b).1.ents ↔ x ∈ s.ents :=
+  createEntry_frame x hx
+
+/-- DeleteEntryMetaAndData (recursive or not, with or without data, succeeding or not) changes nothing outside the subtree -/
+theorem delete_touches_only_subtree (s : St) (p : RPath) (r dc : Bool) (x : RPath × Entry)
+    (hx : ¬ p <:+ x.1) : x ∈ (deleteEntry s p r dc).1.ents ↔ x ∈ s.ents :=
+  deleteEntry_frame x hx
+
+/-- AtomicRenameEntry — finished, failed half-way, or recursing without bound — changes nothing outside the source
+    subtree, the target subtree and the target's ancestors: no unrelated entry is lost, duplicated or rewritten -/
+theorem rename_touches_only_source_and_target (s : St) (src dst : RPath) (x : RPath × Entry)
+    (h1 : ¬ src <:+ x.1) (h2 : ¬ dst <:+ x.1) (h3 : ¬ x.1 <:+ dst) :
+    x ∈ (renameEntry s src dst).1.ents ↔ x ∈ s.ents := by
+  unfold renameEntry
+  split
+  · rfl
+  · exact moveEntry_frame _ s src _ dst x ⟨h1, h2, h3⟩
+
 /-! ### tie to the source (T1): the Go functions this model mirrors are the ones it was written against -/
 
 /-- a source edit of any mirrored function changes its hash and breaks this obligation (the model must then be
